@@ -135,7 +135,8 @@ class Explorer:
                  proto: Set[str] = frozenset(), depth: int = 4, unroll: int = 2, budget: int = 50000,
                  config_attrs=DEFAULT_CONFIG_ATTRS, relevant: Optional[Callable[[ast.AST], bool]] = None,
                  never_inline: Set[str] = frozenset(), process_loop_once: bool = True,
-                 interrupt_edges: bool = True, assume: Optional[Callable] = None):
+                 interrupt_edges: bool = True, assume: Optional[Callable] = None, track_attrs: bool = False,
+                 stmt_hook: Optional[Callable] = None):
         self.p = project
         self.cls_key = cls_key
         self.methods = project.methods(cls_key) if cls_key else {}
@@ -151,6 +152,8 @@ class Explorer:
         self.process_loop_once = process_loop_once
         self.interrupt_edges = interrupt_edges
         self.assume = assume
+        self.track_attrs = track_attrs
+        self.stmt_hook = stmt_hook
         self._modsum: Dict[str, Set[str]] = {}
         self.npaths = 0
         self.handlers: List[Set[str]] = []
@@ -323,6 +326,8 @@ class Explorer:
         if isinstance(node, ast.Attribute):
             a = self_attr(node)
             if a is not None:
+                if ('self.' + a) in st.env:
+                    return [(st.env['self.' + a], st)]
                 return [(('self', a), st)]
             res = []
             for bv, s in self.ev(node.value, st):
@@ -487,6 +492,9 @@ class Explorer:
             if isinstance(f.value, ast.Name) and f.attr in ('append', 'pop', 'remove', 'index', 'insert') \
                     and st.env.get(f.value.id, ('?',))[0] in ('locallist', 'tokenlist'):
                 return self.local_list_op(node, f.value.id, f.attr, st)
+            if self_attr(f.value) is not None and f.attr in ('append', 'pop', 'remove', 'index', 'insert') \
+                    and st.env.get('self.' + f.value.attr, ('?',))[0] in ('locallist', 'tokenlist'):
+                return self.local_list_op(node, 'self.' + f.value.attr, f.attr, st)
             # super().m(...)
             if isinstance(f.value, ast.Call) and isinstance(f.value.func, ast.Name) and f.value.func.id == 'super':
                 cur = st.frames[-1]
@@ -591,8 +599,9 @@ class Explorer:
                     res.append((RAISE, s))
                     continue
                 name = ast.unparse(f)
-                self.emit(s, 'xcall', node, name=name, args=tuple(vals), node=node)
-                res.append((('callres', name[:40], next(_uid)), s))
+                result = ('callres', name[:40], next(_uid))
+                self.emit(s, 'xcall', node, name=name, args=tuple(vals), node=node, result=result)
+                res.append((result, s))
         return res
 
     def lookup(self, node: ast.Call, st: St):
@@ -611,19 +620,20 @@ class Explorer:
                         eqnames.append(r.id)
                     elif isinstance(r, ast.Name) and r.id == var and isinstance(l, ast.Name):
                         eqnames.append(l.id)
+        found = ('found', src, next(_uid), st.env.get(eqnames[0]) if eqnames else None)
+        src_val = self.pure_value(gen.iter, st)
         a = st
         b = st.clone()
-        found = ('found', src, next(_uid), a.env.get(eqnames[0]) if eqnames else None)
         atoms_found = []
         if srcL is not None:
             e0 = self.len_lin(srcL, a)
             atoms_found = [('<', lin.norm(lin.lneg(e0)))]
         self.emit(a, 'lookup', node, src=src, srclist=srcL, pred=pred, outcome='found', value=found, eq=eqnames,
-                  pred_nodes=gen.ifs, var=var)
+                  pred_nodes=gen.ifs, var=var, src_val=src_val, node=node)
         if atoms_found:
             self.emit(a, 'cond', node, node=node, text=f'<found in {src}>', polarity=True, atoms=atoms_found, synthetic=True)
         self.emit(b, 'lookup', node, src=src, srclist=srcL, pred=pred, outcome='none', value=NONE, eq=eqnames,
-                  pred_nodes=gen.ifs, var=var)
+                  pred_nodes=gen.ifs, var=var, src_val=src_val, node=node)
         default = NONE
         if len(node.args) > 1 and not (isinstance(node.args[1], ast.Constant) and node.args[1].value is None):
             default = ('expr', ast.unparse(node.args[1]), next(_uid))
@@ -698,7 +708,7 @@ class Explorer:
                 result = ('lelem', name, vals[0] if vals else ('const', -1), next(_uid))
             if op == 'index':
                 result = ('lindex', name, vals[0] if vals else None)
-            self.emit(s, 'lop', node, list=name, op=op, args=tuple(vals), result=result, node=node)
+            self.emit(s, 'lop', node, list=name, listval=s.env.get(name), op=op, args=tuple(vals), result=result, node=node)
             self.invalidate(s, name)
             res.append((result, s))
         return res
@@ -765,6 +775,10 @@ class Explorer:
                 isnone = self.value_is_none(v, st, node.left.id)
                 if isnone is not None:
                     return isnone if isinstance(node.ops[0], ast.Is) else (not isnone)
+            elif self_attr(node.left) is not None and ('self.' + node.left.attr) in st.env:
+                isnone = self.value_is_none(st.env['self.' + node.left.attr], st)
+                if isnone is not None:
+                    return isnone if isinstance(node.ops[0], ast.Is) else (not isnone)
         if isinstance(node, ast.Compare) and len(node.ops) == 1 and isinstance(node.ops[0], (ast.Eq, ast.NotEq, ast.Is, ast.IsNot)):
             l, r = node.left, node.comparators[0]
             if isinstance(l, (ast.Name, ast.Call, ast.Subscript)) and isinstance(r, (ast.Name, ast.Call, ast.Subscript)):
@@ -808,7 +822,7 @@ class Explorer:
         if isinstance(node, ast.Attribute):
             a = self_attr(node)
             if a is not None:
-                return ('self', a)
+                return st.env.get('self.' + a, ('self', a))
         l = self.try_lin(node, st) if isinstance(node, (ast.BinOp, ast.Call)) else None
         if l is not None:
             return ('lin', lin.norm(l))
@@ -828,8 +842,10 @@ class Explorer:
             return None
         if v[0] == 'const':
             return v[1] is None
-        if v[0] in ('found', 'elem', 'newevent', 'proc', 'tuple', 'lin', 'tokenlist', 'locallist', 'lelem'):
+        if v[0] in ('found', 'elem', 'newevent', 'proc', 'tuple', 'lin', 'tokenlist', 'locallist', 'lelem', 'first-avail'):
             return False
+        if v[0] == 'callres' and v[1][:1].isupper():
+            return False          # result of a constructor call
         if name is not None and name in st.notnone:
             return False
         return None
@@ -956,6 +972,11 @@ class Explorer:
             txt = ast.unparse(t)
             self.emit(st, 'setattr', node, target=txt, attr=t.attr, on_self=self_attr(t) is not None, value=val, aug=aug, node=node)
             self.invalidate(st, txt)
+            if self_attr(t) is not None and self.track_attrs:
+                if val[0] == 'list':
+                    st.locallen[txt] = lin.lconst(len(val[1]))
+                    val = ('locallist', next(_uid))
+                st.env[txt] = val
             if val[0] in ('tokenlist',):
                 st.locallen[txt] = {('tl:%d' % val[1]): 1}
             if self_attr(t) in self.tracked:
@@ -978,6 +999,10 @@ class Explorer:
                     self.assign_target(e, ('sub', val, ('const', i)), st, node)
 
     def stmt(self, n, st: St):
+        if self.stmt_hook is not None:
+            handled = self.stmt_hook(self, n, st)
+            if handled is not None:
+                return handled
         if isinstance(n, ast.Expr):
             if isinstance(n.value, ast.Constant):
                 return [(st, 'normal')]
